@@ -581,4 +581,216 @@ def discECfg (threaded : Bool) (nObj nProcs : Nat) (tasks : List (Nat × DiscCal
 def discMem (threaded : Bool) (main : List ObjSt) (nTasks nProcs : Nat) : List ObjSt :=
   if threaded then main else forkMem main (min nTasks nProcs)
 
+/-! ## 7. A gradient approximator object whose function takes keyword arguments
+
+`BaseGradientApproximator` (src/gemseo/utils/derivatives/base_gradient_approximator.py) and
+`FirstOrderFD` / `CenteredDifferences` / `ComplexStep`.  The parallel branches hand the tasks
+`[self._wrap_function] * n` to a `CallableParallelExecution`; `_wrap_function(p)` is
+`self.f_pointer(p, **self._function_kwargs)`: a task reads the keyword arguments **held by the object**
+when it runs, so they have to be stored before the pool starts (`self._function_kwargs = kwargs` in
+`f_gradient`, in `_compute_parallel_grad` and in the parallel branch of `compute_optimal_step`).  The
+sequential branches call `self.f_pointer(p, **kwargs)` with the arguments of the current call.
+`compute_optimal_step` replaces the default step (`self.step = opt_steps`), which later calls use. -/
+
+/-- The function `f`, and what the approximator does around its evaluations: the points of a call given
+    the current step, and the result computed from the values the pool returned (slot by slot). -/
+structure ACfg (κ ξ ν ρ : Type) where
+  f : ξ → κ → ν
+  gradPts : ρ → ξ → List ξ
+  gradOf : ρ → ξ → List (Option ν) → ρ
+  optPts : ρ → ξ → List ξ
+  optOf : ρ → ξ → List (Option ν) → ρ
+
+/-- The approximator object: `_function_kwargs` and `step`. -/
+structure AState (κ ρ : Type) where
+  kwargs : κ
+  step : ρ
+
+/-- A public call: `f_gradient(x, **kw)` or `compute_optimal_step(x, **kw)`. -/
+inductive AOp (κ ξ : Type) where
+  | grad (x : ξ) (kw : κ)
+  | optStep (x : ξ) (kw : κ)
+
+variable {κ ξ ν ρ : Type}
+
+def AOp.kw : AOp κ ξ → κ
+  | .grad _ kw => kw
+  | .optStep _ kw => kw
+
+def ACfg.pts (c : ACfg κ ξ ν ρ) (step : ρ) : AOp κ ξ → List ξ
+  | .grad x _ => c.gradPts step x
+  | .optStep x _ => c.optPts step x
+
+def ACfg.combine (c : ACfg κ ξ ν ρ) (step : ρ) : AOp κ ξ → List (Option ν) → ρ
+  | .grad x _ => c.gradOf step x
+  | .optStep x _ => c.optOf step x
+
+/-- The step after a call: only `compute_optimal_step` replaces it, by its result. -/
+def nextStep (step : ρ) : AOp κ ξ → ρ → ρ
+  | .grad _ _, _ => step
+  | .optStep _ _, r => r
+
+/-- The pool of one parallel call: inputs = the points, `[self._wrap_function] * n` = `n` times the
+    callable that evaluates `f` with the keyword arguments **of the object `s`**. -/
+def approxPool (c : ACfg κ ξ ν ρ) (nProcs : Nat) (s : AState κ ρ) (pts : List ξ) : Cfg ξ ν :=
+  { inputs := pts
+    callables := List.replicate pts.length (fun p => .ok (c.f p s.kwargs))
+    nProcs := nProcs }
+
+/-- The object when the pool of a call starts: the code stores the keyword arguments of the call. -/
+def storeKw (s : AState κ ρ) (op : AOp κ ξ) : AState κ ρ := { s with kwargs := op.kw }
+
+/-- What the code does **not** do (seeded change r3m1): `compute_optimal_step` leaves the keyword arguments
+    of the previous call on the object.  Only used for a counter-example. -/
+def storeKwGradOnly (s : AState κ ρ) : AOp κ ξ → AState κ ρ
+  | .grad _ kw => { s with kwargs := kw }
+  | .optStep _ _ => s
+
+/-- One parallel call, the pool being represented by its sequential map (every complete schedule returns it:
+    `returns_seqMap_of_no_stop_task`); `store` is the assignment of `_function_kwargs`. -/
+def parStepWith (store : AState κ ρ → AOp κ ξ → AState κ ρ) (c : ACfg κ ξ ν ρ) (nProcs : Nat)
+    (s : AState κ ρ) (op : AOp κ ξ) : AState κ ρ × ρ :=
+  let s1 := store s op
+  let r := c.combine s.step op (seqMap (approxPool c nProcs s1 (c.pts s.step op)))
+  ({ s1 with step := nextStep s.step op r }, r)
+
+def parStep (c : ACfg κ ξ ν ρ) (nProcs : Nat) := parStepWith storeKw c nProcs
+
+/-- One sequential call: `f(p, **kwargs)` with the arguments of the call; the state is the step. -/
+def seqStep (c : ACfg κ ξ ν ρ) (step : ρ) (op : AOp κ ξ) : ρ × ρ :=
+  let r := c.combine step op ((c.pts step op).map (fun p => some (c.f p op.kw)))
+  (nextStep step op r, r)
+
+def parRunWith (store : AState κ ρ → AOp κ ξ → AState κ ρ) (c : ACfg κ ξ ν ρ) (nProcs : Nat) :
+    AState κ ρ → List (AOp κ ξ) → List ρ
+  | _, [] => []
+  | s, op :: ops => let (s', r) := parStepWith store c nProcs s op; r :: parRunWith store c nProcs s' ops
+
+def parRun (c : ACfg κ ξ ν ρ) (nProcs : Nat) := parRunWith storeKw c nProcs
+
+def seqRun (c : ACfg κ ξ ν ρ) : ρ → List (AOp κ ξ) → List ρ
+  | _, [] => []
+  | step, op :: ops => let (step', r) := seqStep c step op; r :: seqRun c step' ops
+
+/-- `f(x; scale, shift) = scale (c0 + c1 x + q x²) + shift` (one input, one output; used by the examples). -/
+def polyF (c0 c1 q : Rat) (x : Rat) (kw : Rat × Rat) : Rat := kw.1 * (c0 + c1 * x + q * x * x) + kw.2
+
+/-- `f_j(x; scale, shift) = scale (c0_j + Σ_i c_ji x_i + q_j Σ_i (i+1) x_i²) + shift` (the harness function). -/
+def vecF (coef : List (List Rat)) (c0 q : List Rat) (x : List Rat) (kw : Rat × Rat) : List Rat :=
+  (List.range coef.length).map (fun j =>
+    let row := coef.getD j []
+    let lin := (List.range x.length).foldl (fun a i => a + row.getD i 0 * x.getD i 0) 0
+    let sq := (List.range x.length).foldl (fun a i => a + (((i + 1 : Nat) : Rat)) * x.getD i 0 * x.getD i 0) 0
+    kw.1 * (c0.getD j 0 + lin + q.getD j 0 * sq) + kw.2)
+
+/-- The point of a call with its options: `x`, `x_indices` (`[]` = all components), `step=` (`none` = the object's). -/
+structure APoint where
+  x : List Rat
+  idx : List Nat := []
+  step : Option Rat := none
+
+/-- `x` with component `i` moved by `h`. -/
+def bump (p : APoint) (i : Nat) (h : Rat) : APoint :=
+  { p with x := (List.range p.x.length).map (fun k => p.x.getD k 0 + if k = i then h else 0) }
+
+/-- The object's step is `[[h]]`; after `compute_optimal_step` it is that call's (abstract) result. -/
+def objStep (st : List (List Rat)) : Rat := (st.getD 0 []).getD 0 0
+
+def APoint.indices (p : APoint) : List Nat := if p.idx.isEmpty then List.range p.x.length else p.idx
+
+def vsub (a b : List Rat) : List Rat := (List.range a.length).map (fun j => a.getD j 0 - b.getD j 0)
+
+/-- `FirstOrderFD` (`centered = false`) and `CenteredDifferences` on `vecF`, statement by statement: the tasks of
+    `f_gradient` are `[x, x + h e_i ...]` resp. `[x + h e_i ..., x - h e_i ...]` (`i` over `x_indices`), the Jacobian
+    rows are the outputs, the columns the indices; `compute_optimal_step` evaluates `[x, x + h e_i ..., x - h e_i ...]`
+    over all components with the object's step; its float formula `2 sqrt(eps |f| / |f''|)` is not rational: the
+    result is abstracted to the exact quantities it is computed from, row 0 = `f(x)`, row `i+1` = the second
+    differences `f(x + h e_i) - 2 f(x) + f(x - h e_i)` per output. -/
+def fdCfg (centered : Bool) (coef : List (List Rat)) (c0 q : List Rat) :
+    ACfg (Rat × Rat) APoint (List Rat) (List (List Rat)) :=
+  { f := fun p kw => vecF coef c0 q p.x kw
+    gradPts := fun st p =>
+      let h := p.step.getD (objStep st)
+      if centered then p.indices.map (fun i => bump p i h) ++ p.indices.map (fun i => bump p i (-h))
+      else p :: p.indices.map (fun i => bump p i h)
+    gradOf := fun st p vals =>
+      let h := p.step.getD (objStep st)
+      let n := p.indices.length
+      let v := fun k => (vals.getD k none).getD []
+      (List.range coef.length).map (fun j => (List.range n).map (fun k =>
+        if centered then ((v k).getD j 0 - (v (n + k)).getD j 0) / (2 * h)
+        else ((v (k + 1)).getD j 0 - (v 0).getD j 0) / h))
+    optPts := fun st p =>
+      let h := objStep st
+      let all := List.range p.x.length
+      p :: (all.map (fun i => bump p i h) ++ all.map (fun i => bump p i (-h)))
+    optOf := fun _ p vals =>
+      let n := p.x.length
+      let v := fun k => (vals.getD k none).getD []
+      v 0 :: (List.range n).map (fun i => vsub (vsub (v (i + 1)) (v 0)) (vsub (v 0) (v (n + i + 1)))) }
+
+/-- The values a parallel call evaluates, in task order (the driver prints them). -/
+def parEvals (c : ACfg κ ξ ν ρ) (nProcs : Nat) (s : AState κ ρ) (op : AOp κ ξ) : List (Option ν) :=
+  seqMap (approxPool c nProcs (storeKw s op) (c.pts s.step op))
+
+/-! ## 8. The Jacobian and the data of a parallel chain assembled from its disciplines
+
+`MDOParallelChain._execute` / `_compute_jacobian` (src/gemseo/core/chains/parallel_chain.py): after the pool
+returned, the disciplines are visited **in chain order**; for the data
+`self.io.data.update({o: discipline.io.data[o] for o in discipline.io.output_grammar})`; for the Jacobian, slot
+`None` (failed linearization) is skipped, otherwise for every output name `o` of the discipline:
+`discipline_jacobian.get(o)` is `None` → `self.jac.pop(o, None)`, else `self.jac[o] = dict(...)`.  Then
+`_init_jacobian(..., fill_missing_keys=True)` puts a zero block for every requested pair that is missing.
+Dictionaries are functions `name → Option _` (their order is not observable here); names are `Nat`. -/
+
+abbrev Dict (V : Type) := Nat → Option V
+
+def Dict.set {V : Type} (d : Dict V) (k : Nat) (v : V) : Dict V := fun j => if j = k then some v else d j
+
+def Dict.erase {V : Type} (d : Dict V) (k : Nat) : Dict V := fun j => if j = k then none else d j
+
+/-- What the chain knows of one discipline after the pool returned: the names of its output grammar, its
+    output values, and its slot in the list returned by `DiscParallelLinearization` (`none` = failed; otherwise the
+    dictionary `output name → blocks`, `blocks : input name → Option block`). -/
+structure DiscLin (V B : Type) where
+  outputs : List Nat
+  val : Nat → V
+  jac : Option (Dict (Dict B))
+
+variable {V B : Type}
+
+/-- The inner loop of `_compute_jacobian` for one discipline. -/
+def mergeOne (acc : Dict (Dict B)) (d : DiscLin V B) : Dict (Dict B) :=
+  match d.jac with
+  | none => acc
+  | some j => d.outputs.foldl (fun a o => match j o with
+      | none => a.erase o
+      | some b => a.set o b) acc
+
+/-- `self.jac` after the loop over the disciplines. -/
+def mergeJac (ds : List (DiscLin V B)) : Dict (Dict B) := ds.foldl mergeOne (fun _ => none)
+
+/-- What the code does **not** do (seeded change r3m2): an output for which the discipline returned no
+    Jacobian keeps the entry of an earlier discipline.  Only used for a counter-example. -/
+def mergeOneKeep (acc : Dict (Dict B)) (d : DiscLin V B) : Dict (Dict B) :=
+  match d.jac with
+  | none => acc
+  | some j => d.outputs.foldl (fun a o => match j o with
+      | none => a
+      | some b => a.set o b) acc
+
+def mergeJacKeep (ds : List (DiscLin V B)) : Dict (Dict B) := ds.foldl mergeOneKeep (fun _ => none)
+
+/-- The loop of `_execute` over the disciplines. -/
+def mergeDataOne (acc : Dict V) (d : DiscLin V B) : Dict V := d.outputs.foldl (fun a o => a.set o (d.val o)) acc
+
+def mergeData (ds : List (DiscLin V B)) : Dict V := ds.foldl mergeDataOne (fun _ => none)
+
+/-- The last discipline of the chain that computes `o` (among those whose slot satisfies `p`). -/
+def lastProducer (p : DiscLin V B → Bool) (ds : List (DiscLin V B)) (o : Nat) : Option (DiscLin V B) :=
+  ds.reverse.find? (fun d => p d && d.outputs.contains o)
+
+/-- Block `(o, i)` of the chain Jacobian after `_init_jacobian(fill_missing_keys=True)` (scalar blocks `c I`). -/
+def chainBlock (jac : Dict (Dict Rat)) (o i : Nat) : Rat := ((jac o).bind (fun b => b i)).getD 0
+
 end GV.C13
